@@ -15,6 +15,8 @@ import MysyncModel.Replay.C09
 import MysyncModel.Replay.C08
 import MysyncModel.Replay.C04
 import MysyncModel.Replay.C01
+import MysyncModel.Replay.C11
+import MysyncModel.Replay.C19
 
 open Lean Replay
 
@@ -32,7 +34,9 @@ def handlers : List (String × Handler) := [
   ("c09h", Replay.C09.handle),
   ("c08", Replay.C08.handle),
   ("c04", Replay.C04.handle),
-  ("c01", Replay.C01.handle)
+  ("c01", Replay.C01.handle),
+  ("c11", Replay.C11.handle),
+  ("c19sync", Replay.C19.handle)
 ]
 
 partial def loop (h : IO.FS.Stream) (seen : Std.HashSet UInt64) (a : Acc) : IO Acc := do
